@@ -97,9 +97,155 @@ def record(ctx, obs):
     return bad
 
 
+def real_thread_stress(ctx, rng, seconds, nthreads=8):
+    """complementary free-running stress: real threads, real socketpair, tiny GIL switch interval; same history oracle.
+    Bytecode-level pre-emption everywhere (not only at the instrumented lines), but schedules are whatever the OS produces."""
+    import select
+    import socket
+    import struct
+    import sys
+    import threading
+    import time
+    import zlib
+    import rpyc
+    from rpyc.core import consts
+    from rpyc.core.stream import SocketStream
+    from rpyc.utils.helpers import BgServingThread
+    from rv import refcodec as rc
+    s1, s2 = socket.socketpair()
+    conn = rpyc.connect_stream(SocketStream(s1), config={"sync_request_timeout": 6})
+    counts, clock = {}, threading.Lock()
+    orig = conn._dispatch
+
+    def counted(data):
+        with clock:
+            counts[data] = counts.get(data, 0) + 1
+        return orig(data)
+    conn._dispatch = counted
+    stop = threading.Event()
+    seqs = []
+    prng = __import__("random").Random(repr(("stress-peer", ctx.seed, ctx.shard[0])))
+
+    def peer():
+        buf = bytearray()
+        held = []
+        s2.setblocking(False)
+        while not stop.is_set() or held:
+            r, _, _ = select.select([s2], [], [], 0.002)
+            if r:
+                try:
+                    chunk = s2.recv(65536)
+                except (BlockingIOError, InterruptedError):
+                    chunk = None
+                except OSError:
+                    return
+                if chunk == b"":
+                    return
+                if chunk:
+                    buf.extend(chunk)
+            while len(buf) >= 5:
+                n, flag = struct.unpack(">IB", buf[:5])
+                if len(buf) < 5 + n + 1:
+                    break
+                body = bytes(buf[5:5 + n])
+                del buf[:5 + n + 1]
+                m = rc.parse_message(zlib.decompress(body) if flag else body)
+                if m["kind"] == rc.MSG_REQUEST:
+                    seqs.append(m["seq"])
+                    if m["args"][0] == rc.HANDLERS["CLOSE"]:
+                        return
+                    held.append(m)
+            prng.shuffle(held)
+            k = prng.randrange(0, len(held) + 1)
+            for m in held[:k]:
+                handler, boxed = m["args"]
+                val = ("r", boxed[1][0]) if handler == rc.HANDLERS["PING"] else None
+                data = rc.msg(rc.MSG_REPLY, m["seq"], (rc.LABEL_VALUE, val))
+                s2.setblocking(True)
+                try:
+                    s2.sendall(data)
+                except OSError:
+                    return
+                finally:
+                    s2.setblocking(False)
+            del held[:k]
+    results = []
+    rlock = threading.Lock()
+
+    def client(ci):
+        i = 0
+        crng = __import__("random").Random(repr(("stress-client", ctx.seed, ci)))
+        while not stop.is_set():
+            i += 1
+            token = "x%d_%d" % (ci, i)
+            try:
+                if crng.random() < .5:
+                    v = conn.sync_request(consts.HANDLE_PING, token)
+                    n_cb = 1
+                else:
+                    ar = conn.async_request(consts.HANDLE_PING, token, timeout=6)
+                    cbs = []
+                    ar.add_callback(lambda r, cbs=cbs: cbs.append(1))
+                    v = ar.value
+                    n_cb = cbs          # judged after the run: the dispatching thread may still be about to run it
+                out = ("value", v, n_cb)
+            except BaseException as e:
+                out = ("exc", type(e).__name__, 0)
+            with rlock:
+                results.append((token, out))
+    old = sys.getswitchinterval()
+    sys.setswitchinterval(1e-5)
+    pt = threading.Thread(target=peer, daemon=True, name="rv-stress-peer")
+    pt.start()
+    bg = BgServingThread(conn)
+    threads = [threading.Thread(target=client, args=(ci,), daemon=True) for ci in range(nthreads)]
+    try:
+        for t in threads:
+            t.start()
+        time.sleep(seconds)
+        stop.set()
+        for t in threads:
+            t.join(60)
+        stuck = [t for t in threads if t.is_alive()]
+    finally:
+        sys.setswitchinterval(old)
+        try:
+            bg.stop()
+        except Exception:
+            pass
+        conn.close()
+        pt.join(10)
+        s1.close()
+        s2.close()
+    wit = dict(mode="real-thread-stress", threads=nthreads, seconds=seconds)
+    ctx.case(("real-thread-stress", nthreads, len(results) // 1000), nontrivial=True)
+    ctx.count("stress_requests_completed", len(results))
+    ctx.count("stress_frames_dispatched", len(counts))
+    if stuck:
+        ctx.inconclusive("real-thread stress: %d client threads did not finish within 60 s" % len(stuck))
+    for token, out in results:
+        if out[0] == "value" and out[1] != ("r", token):
+            ctx.violation("C13/stress/crossed-reply", "request %s completed with %r" % (token, out[1]), wit)
+        elif out[0] == "value" and (len(out[2]) if isinstance(out[2], list) else out[2]) != 1:
+            n = len(out[2]) if isinstance(out[2], list) else out[2]
+            ctx.violation("C13/stress/completed-%d-times" % n, "request %s ran its callback %d times" % (token, n), wit)
+        elif out[0] == "exc" and out[1] not in ("TimeoutError",):
+            ctx.violation("C13/stress/request-failed/%s" % out[1], "request %s ended with %s" % (token, out[1]), wit)
+        elif out[0] == "exc":
+            ctx.count("stress_timeouts_(c14_stall_or_load)")
+    for data, n in counts.items():
+        if n != 1:
+            ctx.violation("C13/stress/frame-dispatched-%d-times" % n, "an incoming frame was dispatched %d times" % n, wit)
+    if len(set(seqs)) != len(seqs):
+        ctx.violation("C13/stress/sequence-number-reused", "a sequence number was used twice on the wire", wit)
+
+
 def run(ctx):
     rng = ctx.rng
     cfgs = configs()
+    real_thread_stress(ctx, rng, 2.5 if ctx.quick else 20)
+    if ctx.enough():
+        return
     if ctx.shard[0] == 0:
         n_sys = 0
         for cfg in (cfgs[:4] if ctx.quick else cfgs):
